@@ -1,0 +1,14 @@
+//go:build !verif
+
+// Package verifhook holds the observation points used by the external
+// verification harness. Without the build tag "verif" they are empty.
+package verifhook
+
+// At marks an observation point.
+func At(string) {}
+
+// Mut marks a persistent mutation that is about to happen.
+func Mut(string, string) {}
+
+// DiskFree lets a harness override the free space of a root.
+func DiskFree(_ string, real uint64) uint64 { return real }
